@@ -515,7 +515,7 @@ def gen_pipeline(rng, big):
     cs = rng.sample(pool, k)
     sk = rng.choice(sketches) if rng.random() < 0.35 else None
     depth = rng.choice([2, 3, 3]) if not big else rng.choice([2, 3, 3, 3])
-    if "ite" in syntax and depth == 3 and not big:
+    if ("ite" in syntax and depth == 3 and not big) or (k >= 3 and not big):
         depth = 2
     dsl = DSL(auto_type(dict(syntax)))
     cfg = CFG.depth_constraint(dsl, auto_type(treq), depth)
@@ -559,19 +559,35 @@ def gen_realops(rng, big):
     return None
 
 
+class GenTimeout(Exception):
+    pass
+
+
+def _gen_alarm(signum, frame):
+    raise GenTimeout()
+
+
 def gen(rng, i, tier):
+    import signal
     big = tier == "thorough"
     r = rng.random()
     got = None
     tags = []
+    old = signal.signal(signal.SIGALRM, _gen_alarm)
+    signal.alarm(20 if big else 8)         # the real pipeline can take minutes on some constraint sets
     try:
         if r < 0.40:
             got = gen_pipeline(rng, big)
         elif r < 0.55:
             got = gen_realops(rng, big)
-    except Exception as e:  # a generator that fails falls back to the hand-built stream
+    except BaseException as e:  # a generator that fails falls back to the hand-built stream
+        if isinstance(e, KeyboardInterrupt):
+            raise
         tags.append("gen-exc." + type(e).__name__)
         got = None
+    finally:
+        signal.alarm(0)
+        signal.signal(signal.SIGALRM, old)
     if got is not None:
         rules, finals, t2 = got
         tags += t2
@@ -771,7 +787,12 @@ def check(case, M):
     progs = [tree_prog(t) for t in trees]
     jobs = [("plain", None)] + [("ngram", n) for n in widths]
     impl = []
-    for kind, n in jobs:
+    for kind, n in list(jobs):
+        if kind == "ngram" and impl and impl[0].get("cyclic") and not 0 <= n <= 3:
+            # __d2state__ merged states into a cyclic grammar: unbounded / long contexts never end
+            jobs.remove((kind, n))
+            tags.append("ngram.skipped-cyclic")
+            continue
         try:
             g = UCFG.from_DFTA(dfta, clean=False) if kind == "plain" else UCFG.from_DFTA_with_ngrams(dfta, n)
         except Exception as e:
